@@ -281,6 +281,10 @@ func (g *c02Gen) notif() c02Msg {
 func genC02(r *vh.Rand, idx int) c02Spec {
 	s := c02Spec{Transport: []string{"stdio", "stdio", "sse", "http-sse", "http-json"}[r.Intn(5)]}
 	s.Version = r.Choose("2025-03-26", "2025-03-26", "2024-11-05", "2025-06-18", "2025-11-25")
+	if idx%7 == 3 && strings.HasPrefix(s.Transport, "http-") {
+		// a stateless endpoint: every POST is served by a session of its own, there is no handshake and no session id
+		s.Transport = strings.Replace(s.Transport, "http-", "http-stateless-", 1)
+	}
 	batchOK := s.Version <= "2025-03-26" && s.Transport != "sse"
 	g := &c02Gen{r: r, used: map[string]bool{`"init"`: true, `"final-ping"`: true}, noModern: batchOK}
 	n := r.Range(2, 10)
@@ -421,6 +425,11 @@ func c02Server() *mcp.Server {
 			Delay int `json:"delay"`
 		}
 		json.Unmarshal(req.Params.Arguments, &a)
+		if a.Nonce%3 == 0 {
+			// a handler that reports on its request before it answers: wherever that notification goes, the request
+			// still gets its one response, in the shape of a response
+			req.Session.NotifyProgress(ctx, &mcp.ProgressNotificationParams{ProgressToken: "echo", Progress: 1, Message: "working"})
+		}
 		if a.Delay > 0 {
 			select {
 			case <-time.After(ms(a.Delay)):
@@ -767,20 +776,27 @@ func runC02(c *vh.Case, spec c02Spec) ([]c02Resp, map[int]int) {
 		wg.Wait()
 		ip.Wait()
 	default: // streamable
-		ho := &mcp.StreamableHTTPOptions{JSONResponse: spec.Transport == "http-json"}
+		stateless := strings.Contains(spec.Transport, "stateless")
+		ho := &mcp.StreamableHTTPOptions{JSONResponse: strings.HasSuffix(spec.Transport, "json"), Stateless: stateless}
 		if spec.FlakyStore {
 			ho.EventStore = &c02FlakyStore{EventStore: mcp.NewMemoryEventStore(nil)}
 		}
 		h := mcp.NewStreamableHTTPHandler(func(*http.Request) *mcp.Server { return server }, ho)
 		ip := &vhm.InProc{Handler: h}
 		hdr := map[string]string{"Content-Type": "application/json", "Accept": "application/json, text/event-stream"}
-		st, rh, body, err := ip.Do(ctx, "POST", "http://example.test/mcp", hdr, []byte(initMsg))
-		if err != nil || st != 200 {
-			c.Inconclusive("initialize POST: %d %v %s", st, err, body)
-			return nil, nil
+		var st int
+		var rh http.Header
+		var body []byte
+		var err error
+		if !stateless {
+			st, rh, body, err = ip.Do(ctx, "POST", "http://example.test/mcp", hdr, []byte(initMsg))
+			if err != nil || st != 200 {
+				c.Inconclusive("initialize POST: %d %v %s", st, err, body)
+				return nil, nil
+			}
+			sid := rh.Get("Mcp-Session-Id")
+			hdr["Mcp-Session-Id"] = sid
 		}
-		sid := rh.Get("Mcp-Session-Id")
-		hdr["Mcp-Session-Id"] = sid
 		if c.R.Bool() || spec.Version >= "2025-06-18" {
 			hdr["Mcp-Protocol-Version"] = spec.Version
 		}
@@ -799,10 +815,24 @@ func runC02(c *vh.Case, spec c02Spec) ([]c02Resp, map[int]int) {
 					}
 				}
 			case strings.HasPrefix(ct, "application/json"):
+				if t := bytes.TrimSpace(body); i >= 0 && !spec.Payloads[i].Batch && len(t) > 0 && t[0] == '[' {
+					c.Violate("response-shape", "payload %d is one message, not a batch, yet its POST (HTTP %d, %s) is answered with a JSON array: %s", i, st, spec.Transport, trunc80(string(t)))
+				}
+				// one JSON value and nothing after it (a second answer appended to a refusal would hide there)
+				if dec := json.NewDecoder(bytes.NewReader(body)); len(bytes.TrimSpace(body)) > 0 {
+					var first json.RawMessage
+					if dec.Decode(&first) == nil {
+						if rest, _ := io.ReadAll(io.MultiReader(dec.Buffered(), bytes.NewReader(nil))); len(bytes.TrimSpace(rest)) > 0 || dec.More() {
+							c.Violate("response-shape", "payload %d (HTTP %d, %s): the application/json body holds more than one JSON value: %s", i, st, spec.Transport, trunc80(string(body)))
+						}
+					}
+				}
 				col.absorb(body, i)
 			}
 		}
-		ip.Do(ctx, "POST", "http://example.test/mcp", hdr, []byte(initdMsg))
+		if !stateless {
+			ip.Do(ctx, "POST", "http://example.test/mcp", hdr, []byte(initdMsg))
+		}
 		for i, p := range spec.Payloads {
 			time.Sleep(ms(p.GapMs))
 			i, body := i, encode(p)
@@ -823,7 +853,9 @@ func runC02(c *vh.Case, spec c02Spec) ([]c02Resp, map[int]int) {
 			absorbHTTP(-2, st, rh, body)
 		}
 		wg.Wait()
-		ip.Do(ctx, "DELETE", "http://example.test/mcp", hdr, nil)
+		if !stateless {
+			ip.Do(ctx, "DELETE", "http://example.test/mcp", hdr, nil)
+		}
 		ip.Wait()
 	}
 	time.Sleep(11 * time.Second)
@@ -843,6 +875,7 @@ func decideC02(c *vh.Case, spec c02Spec, resps []c02Resp, stat map[int]int) {
 		return
 	}
 	isHTTP := strings.HasPrefix(spec.Transport, "http") || spec.Transport == "sse"
+	c.Seen("transports", spec.Transport+"/"+spec.Version)
 	type want struct {
 		class   string
 		code    int
@@ -932,6 +965,13 @@ func decideC02(c *vh.Case, spec c02Spec, resps []c02Resp, stat map[int]int) {
 					if !dupKeys[id] && !r.OK && r.Via == w.payload {
 						rs = append(rs[:k:k], rs[k+1:]...)
 						break
+					}
+				}
+				// ... and nothing else: a request refused at the HTTP level is not executed and answered again
+				for _, r := range rs {
+					if !dupKeys[id] && r.Via == w.payload {
+						c.Violate("response-duplicated", "id %s: payload %d was refused with HTTP %d, yet its exchange carries a further response to it (ok: %v, code %d)", id, w.payload, stat[w.payload], r.OK, r.Code)
+						return
 					}
 				}
 				continue
